@@ -1,4 +1,5 @@
 import ZipVerif.Lemmas.ReaderBounds
+import ZipVerif.Lemmas.CryptoExtTotal
 /-
 C05 — Untrusted bytes never crash, hang or exhaust memory in the readers.
 
@@ -250,6 +251,62 @@ theorem prefix_is_ordinary_input (ext : Ext) (hext : ExtNoPanic ext) (bytes : By
   apply reader_total_bytes ext hext
   rw [List.length_take]
   omega
+
+/-! ### The crate's own decryption layers (finding F4)
+
+`ExtNoPanic` above quantifies over the reader's whole environment.  Two of its three parts are not external
+code at all: `ext.zipCrypto` stands for src/zipcrypto.rs and `ext.aes` for src/aes.rs + src/aes_ctr.rs.  Until
+this finding the only instance for which `ExtNoPanic` was PROVED was `storedExt` (every decryption =
+`UnsupportedArchive`), so "with or without a password" was covered for the glue only.  `Model.cryptoExt P decode`
+(Model/CryptoExt.lean) plugs in the models of the two layers - the functions the translated layer methods are
+tied to (Tie/ZcLayer.lean, Tie/AesLayer.lean) - and `Lemmas/CryptoExtTotal.lean` proves `ExtNoPanic` for it.  What
+remains assumed is code outside the crate: the decompressors do not panic, and PBKDF2 / the AES block function /
+HMAC-SHA1 return outputs of their fixed lengths (`AesPrims.WF`; in Rust: facts of the types). -/
+
+/-- The decryption layers never panic: any password, any declared mode and size, any bytes. -/
+theorem crypto_layers_total (P : Aes.AesPrims) (hW : P.WF) (decode : Method → Bytes → Out Bytes)
+    (hdec : ∀ m bs, ¬ (decode m bs).isPanic = true) : ExtNoPanic (cryptoExt P decode) :=
+  cryptoExt_noPanic P hW decode hdec
+
+/-- **C05, panic-freedom, with the crate's own ZipCrypto and AES layers in place**: every script of
+`open / by_index(_decrypt) / by_index_raw / by_name(_decrypt) / stream visit / new_append` calls with arbitrary
+indices, names and PASSWORDS on arbitrary bytes - the call, the password check, the decryption of the whole
+entry, the authentication-code check, decoding and the CRC check. -/
+theorem reader_total_crypto (P : Aes.AesPrims) (hW : P.WF) (decode : Method → Bytes → Out Bytes)
+    (hdec : ∀ m bs, ¬ (decode m bs).isPanic = true) (fa : Option Nat) (script : List Step) :
+    ∀ (s : State), DevSane s.dev → runScript (cryptoExt P decode) fa s script = false :=
+  reader_total _ (cryptoExt_noPanic P hW decode hdec) fa script
+
+/-- … in particular on every prefix of every byte string (interrupted write or download). -/
+theorem reader_total_crypto_prefix (P : Aes.AesPrims) (hW : P.WF) (decode : Method → Bytes → Out Bytes)
+    (hdec : ∀ m bs, ¬ (decode m bs).isPanic = true) (bytes : Bytes) (hlen : bytes.length < 2 ^ 63) (n : Nat)
+    (fa : Option Nat) (script : List Step) :
+    runScript (cryptoExt P decode) fa ⟨Dev.ofBytes (bytes.take n), none⟩ script = false :=
+  prefix_is_ordinary_input _ (cryptoExt_noPanic P hW decode hdec) bytes hlen n fa script
+
+/-- "Encrypted entries shorter than their crypto header" are errors, for every password: ZipCrypto below 12
+bytes is `UnexpectedEof`, AES below salt + 2 + 10 is `InvalidData` (D4) before a byte is read. -/
+theorem short_encrypted_entry_is_error (P : Aes.AesPrims) (pw : Bytes) :
+    (∀ check raw, raw.length < 12 → zipCryptoLayer pw check raw = .err (.io .unexpectedEof)) ∧
+    (∀ mode (csize : UInt64) raw, csize.toNat < 12 + (aesModeView mode).saltLength →
+      aesLayer P pw mode csize raw = .err (.io .invalidData)) :=
+  ⟨fun c raw h => zipCryptoLayer_short pw c raw h, fun m cs raw h => aesLayer_short P pw m cs raw h⟩
+
+/-- Primitives for evaluation: all-zero outputs of the right lengths (the theorems hold for every `P` with `WF`;
+these make `decide` able to run the layers). -/
+def zeroPrims : Aes.AesPrims where
+  pbkdf2 _ _ n := List.replicate n 0
+  block _ _ := List.replicate 16 0
+  hmac _ _ := List.replicate 20 0
+
+theorem zeroPrims_wf : zeroPrims.WF :=
+  ⟨fun _ _ _ => List.length_replicate .., fun _ _ => List.length_replicate ..,
+   fun _ _ => List.length_replicate ..⟩
+
+/-- Stored-only decoding, as in `storedExt`, but with the decryption layers in place. -/
+def cryptoStoredExt : Ext := cryptoExt zeroPrims (fun _ raw => .ok raw)
+
+example : ExtNoPanic cryptoStoredExt := crypto_layers_total zeroPrims zeroPrims_wf _ (fun _ _ h => by cases h)
 
 /-- The hypotheses are satisfiable: the Stored-only `Ext` is panic-free … -/
 example : ExtNoPanic storedExt := storedExt_noPanic
@@ -552,6 +609,64 @@ example : cuts.all (fun n =>
 example : cuts.all (fun p =>
     !runScript storedExt none ⟨Dev.ofBytes (oneEntry.set p 0xff), none⟩ fullScript) = true := by
   decide +kernel
+
+/-! ### Passwords on adversarial entries, evaluated through the model (finding F4) -/
+
+/-- A local header (no name, no extra field) followed by 40 zero bytes of "data".  Under `zeroPrims` the zero
+bytes are a VALID AES payload for every password (derived keys, key stream and authentication code are all
+zero), so every branch of the AES layer is reached by varying the declared size alone. -/
+def cryptoDev : Bytes := [0x50, 0x4b, 0x03, 0x04] ++ List.replicate 26 0 ++ List.replicate 40 0
+
+/-- An entry at offset 0 with the encryption flag, an AES-256/AE-2 record and a declared size of `k`. -/
+def aesEntry (k : Nat) : FileData :=
+  { (default : FileData) with encrypted := true, compressedSize := UInt64.ofNat k,
+                              aesMode := some (.aes256, .ae2) }
+
+/-- The same without AES record: the ZipCrypto path (check byte = high byte of the CRC = 0). -/
+def zcEntry (k : Nat) : FileData :=
+  { (default : FileData) with encrypted := true, compressedSize := UInt64.ofNat k }
+
+/-- Outcome class of `by_index_decrypt(0, pw)` + `read_to_end` on a one-entry archive value. -/
+def decryptOutcome (f : FileData) (pw : Option Bytes) : String :=
+  match (byIndexRead cryptoStoredExt ⟨[f], 0, []⟩ 0 pw).runPure (Dev.ofBytes cryptoDev) with
+  | (.ok (.ok (_, res)), _) => "read " ++ outcome res
+  | (.ok .invalidPassword, _) => "invalidpw"
+  | (.err e, _) => Out.className e
+  | (.panic _, _) => "panic"
+
+/-- AES-256 needs 16 + 2 + 10 = 28 bytes: every shorter declared size is `InvalidData` (D4: was an overflow
+panic), 28 is the empty entry, 40 uses all the bytes there are, 41 and more find the authentication code cut
+short (`UnexpectedEof`, D9), the maximal size too. -/
+example : (List.range 28).all (fun k => decryptOutcome (aesEntry k) (some [0x70]) == "err io:invaliddata") = true := by
+  decide +kernel
+example : decryptOutcome (aesEntry 28) (some [0x70]) = "read ok" := by decide +kernel
+example : decryptOutcome (aesEntry 40) (some []) = "read ok" := by decide +kernel
+example : decryptOutcome (aesEntry 41) (some [0x70]) = "read err io:eof" := by decide +kernel
+example : decryptOutcome (aesEntry 0xFFFFFFFFFFFFFFFF) (some [0x70]) = "read err io:eof" := by decide +kernel
+/-- no password on an encrypted entry; a password on an entry whose flag is clear is ignored (AES record
+without the flag: `InvalidPassword`, D2: was an unwrap panic) -/
+example : decryptOutcome (aesEntry 30) none = "err passwordrequired" := by decide +kernel
+example : decryptOutcome { aesEntry 30 with encrypted := false } (some [0x70]) = "invalidpw" := by decide +kernel
+
+/-- ZipCrypto entries of every length 0 … 13: below the 12-byte header `UnexpectedEof`; from 12 on the check
+byte decides. -/
+example : (List.range 12).all (fun k => decryptOutcome (zcEntry k) (some [0x70]) == "err io:eof") = true := by
+  decide +kernel
+example : decryptOutcome (zcEntry 12) (some [0x70]) = "invalidpw" := by decide +kernel
+/-- the password `[4]` passes the check byte on these bytes: the empty entry reads (CRC of nothing = 0 = declared),
+the 13-byte one delivers a byte whose CRC-32 is not the declared one -/
+example : decryptOutcome (zcEntry 12) (some [4]) = "read ok" := by decide +kernel
+example : decryptOutcome (zcEntry 13) (some [4]) = "read err io:other" := by decide +kernel
+
+/-- Whole scripts with passwords over these entries, every declared size 0 … 44, also under an injected fault:
+evaluated, no panicking step. -/
+example : (List.range 45).all (fun k =>
+    !runScript cryptoStoredExt none ⟨Dev.ofBytes cryptoDev, some ⟨[aesEntry k, zcEntry k], 0, []⟩⟩
+      [.byIndex 0 (some [0x70]), .byIndex 1 (some [0x70]), .byName [] (some []), .byIndex 0 none,
+       .byIndexRaw 0, .byIndex 1 (some [1, 2, 3])]) = true := by decide +kernel
+example : (List.range 12).all (fun fk =>
+    !runScript cryptoStoredExt (some fk) ⟨Dev.ofBytes cryptoDev, some ⟨[aesEntry 40, zcEntry 20], 0, []⟩⟩
+      [.byIndex 0 (some [0x70]), .byIndex 1 (some [0x70])]) = true := by decide +kernel
 
 /-! ### D16 (found by this property's stream, fixed in the crate and mirrored in the model)
 
